@@ -229,6 +229,19 @@ fn check(case: &Case, ctx: &mut Ctx) {
             ctx.label("inconclusive_timeout");
             return;
         }
+        if std::env::var_os("VERIF_DEBUG").is_some() {
+            eprintln!("--- round {_round} wire:");
+            for (f, t, w) in cl.wire.drain(..) {
+                eprintln!("   {f} -> {t:?}: {}", vh_core::one_line(&w, 100));
+            }
+            for i in 0..n {
+                let r = cl.local_get(i, &keys.reg).map(|r| {
+                    let reg: SignedRegister = try_deserialize_record(&r).expect("reg");
+                    (0..3).filter(|b| reg.ops().contains(&ops[*b])).fold(0u8, |a, b| a | (1 << b))
+                });
+                eprintln!("   node {i} register ops {r:?}");
+            }
+        }
         // a node advertises every record it holds to its replication targets (all neighbours here)
         for i in 0..n {
             if held_at_trigger[i].is_empty() {
